@@ -15,7 +15,7 @@ LEVEL = "exploration"
 RULE = ("cases = layouts: filler kinds before and between the functions (blank lines, // and /* */ comments, multi-line expressions, backslash "
         "continuations, multi-line #define, statements of > 255 bytes of code, 0 / 33000 / 66000 extra lines), a call chain of 1-6 functions with edge "
         "kinds {direct, call_other, function pointer, map callback} and the failing statement's site {main file, include depth 1-4, inherited program, "
-        "function literal, functional, global initialiser}; failing forms error() and division by an opaque zero; uncaught and caught. "
+        "function literal, functional, global initialiser}; failing forms error(), division by an opaque zero (global, local, in a return), a bad efun argument and an index out of bounds, optionally as the first statement of its function, optionally after a small header was included; uncaught and caught. "
         "non-trivial = the statement is not in the first 10 lines and at least one of {include, inherit, literal, long code, >32767 lines}; "
         "distinct = layout hash")
 ASSUMPTIONS = ["expected line = the 1-based line of the statement in the file that contains its text; expected file = that file (leading '/' ignored)",
@@ -23,7 +23,7 @@ ASSUMPTIONS = ["expected line = the 1-based line of the statement in the file th
 NONTRIVIAL_FLOOR = {"quick": 200, "thorough": 3000}
 
 # (backslash-newline outside a #define is not LPC in this lexer, so continuation lines appear only inside macros)
-FILLERS = ["blank", "blank3", "comment", "block_comment", "multiline_expr", "macro_multi", "long_stmt", "decl", "string_cont", "long_string_cont", "text_block"]
+FILLERS = ["pre_include", "blank", "blank3", "comment", "block_comment", "multiline_expr", "macro_multi", "long_stmt", "decl", "string_cont", "long_string_cont", "text_block"]
 EDGES = ["direct", "direct", "call_other", "fp", "map"]
 SITES = ["main", "main", "include1", "include2", "include4", "inherit", "literal", "functional", "global_init"]
 
@@ -66,6 +66,9 @@ def filler(L, kind, inside, k):
     elif kind == "long_stmt" and inside:
         # one statement of well over 255 bytes of code
         L.add("  acc = " + " + ".join("(acc ^ %d)" % (i + k) for i in range(60)) + ";")
+    elif kind == "pre_include" and not inside:
+        # a small header (three lines) entered and left before the code that follows: from here on the lexer's line base is not zero
+        L.add('#include "/t/c18pre.h"')
     elif kind == "decl" and not inside:
         L.add("int gv%d = %d;" % (k, k))
     elif kind == "string_cont":
@@ -85,7 +88,8 @@ def cases(draw):
     nfun = draw(st.integers(1, 6))
     return dict(
         site=draw(st.sampled_from(SITES)),
-        form=draw(st.sampled_from(["error", "div"])),
+        form=draw(st.sampled_from(FORMS)),
+        fail_first=draw(st.integers(0, 3)) == 0,
         caught=draw(st.booleans()),
         far=draw(st.sampled_from([0, 0, 0, 0, 33000, 66000])),
         pre=draw(st.lists(st.sampled_from(FILLERS), max_size=8)),
@@ -96,8 +100,18 @@ def cases(draw):
     )
 
 
+FORMS = ["error", "div", "div", "badarg", "index", "ret_badarg", "ret_div", "local_div"]
+
+
 def fail_stmt(form):
-    return 'error("boom at the marked line\\n");' if form == "error" else "acc = 1 / gzero;"
+    """single-line statements whose failing opcode has different operands in front of it (a constant, a global, a local, a call)"""
+    return {"error": 'error("boom at the marked line\\n");',
+            "div": "acc = 1 / gzero;",
+            "badarg": "tmp = capitalize(gmixed);",                 # 'Bad argument 1 to capitalize()': gmixed is 0
+            "index": "acc = garr[z + 5];",                          # 'Array index out of bounds'
+            "ret_badarg": "return capitalize(gmixed);",
+            "ret_div": "return z / gzero;",
+            "local_div": "return 7 / (z - z);"}[form]
 
 
 def build(case):
@@ -113,6 +127,9 @@ def build(case):
     M.add("int gzero;")
     M.add("int acc;")
     M.add("string tmp;")
+    if site != "inherit":
+        M.add("mixed gmixed;")
+        M.add("mixed *garr = ({ });")
     M.add("void create() { seteuid(getuid()); }")
     k = 0
     for f in case["pre"]:
@@ -145,10 +162,10 @@ def build(case):
             k += 1
             filler(L, "comment", True, k)
             filler(L, "multiline_expr", True, k)
-            lit_line = L.add("    " + fail_stmt(case["form"]))
+            lit_line = L.add("    " + __import__("re").sub(r"\bz\b", "q", fail_stmt(case["form"])))
             L.add("    return q;")
             L.add("  };")
-        for f in case["bodies"][i]:
+        for f in ([] if (i == nfun - 1 and case.get("fail_first")) else case["bodies"][i]):
             k += 1
             filler(L, f, True, k)
         if i < nfun - 1:
@@ -202,6 +219,8 @@ def build(case):
         P.add("int gzero;")
         P.add("int acc;")
         P.add("string tmp;")
+        P.add("mixed gmixed;")
+        P.add("mixed *garr = ({ });")
         for f in case["inc_fill"]:
             k += 1
             filler(P, f, False, k)
@@ -217,6 +236,7 @@ def build(case):
         rl = M.add("mixed run() { return f0(0); }")
     exp["run_line"] = rl
     files["t/c18main.c"] = M.text()
+    files["t/c18pre.h"] = "// a header of three lines\n#define C18_PRE 1\nint c18_pre_declared();\n"
     return files, exp
 
 
@@ -249,7 +269,7 @@ def evaluate_case(ctx, w, case):
     errs = [x for x in unjson(er["v"])[1]] if er and er.get("st") == "val" else []
     errs = [dict((k, v) for k, v in e[1]) for e in errs]
     want_caught = 1 if case["caught"] and case["site"] != "global_init" else 0
-    mine = [e for e in errs if ("boom" in e.get("error", "") or "ivision" in e.get("error", ""))]
+    mine = [e for e in errs if any(t in e.get("error", "") for t in ("boom", "ivision", "Bad argument", "ndex out of bounds"))]
     if not mine:
         return ("error-not-handed-to-master", "errors seen %r\n%s" % (errs, info)), None
     e = mine[0]
